@@ -88,16 +88,17 @@ Theorem C02_once_the_faults_stop_encrypt_succeeds : forall svc prod t0 ops s x f
 Proof. exact unfaulted_encrypt_succeeds. Qed.
 Print Assumptions C02_once_the_faults_stop_encrypt_succeeds.
 
-(* the same for the default policy with Session.Close (which destroys the closing session's own key cache) in the history: once the
-   faults stop, the next Encrypt on an open session succeeds *)
+(* the same for every key-cache policy with Session.Close (which destroys the closing session's own key cache) and SessionFactory.Close
+   (which destroys the factory's caches) in the history: once the faults stop, the next Encrypt on an open session of an open factory succeeds *)
 From Asherah Require Envelope.LiveD Envelope.LiveCloseD Envelope.TotalD.
 
-Theorem C02_once_the_faults_stop_encrypt_succeeds_with_session_closes : forall svc prod t0 ops s x fa payload,
-  LiveCloseD.okrun svc prod (hinit t0) ops ->
+Theorem C02_once_the_faults_stop_encrypt_succeeds_with_closes : forall svc prod t0 ops s x fa payload,
+  LiveCloseD.okrun svc prod [] (hinit t0) ops ->
   let h := snd (hrun (hinit t0) ops) in
   let w := h_world h in
-  nth_error (w_sessions w) s = Some x -> ss_torn x = false -> nth_error (w_factories w) (ss_factory x) = Some fa ->
+  nth_error (w_sessions w) s = Some x -> ss_torn x = false -> ~ In (ss_factory x) (LiveCloseD.cf_run [] ops) ->
+  nth_error (w_factories w) (ss_factory x) = Some fa ->
   LiveD.nz_store (w_store w) -> new_key_timestamp (w_now w) (p_precision (fa_policy fa)) <> 0%Z ->
   exists pm c, fst (fst (hstep h (HEncrypt s payload []))) = OEnc pm c.
 Proof. exact TotalD.unfaulted_encrypt_succeeds_own_closing. Qed.
-Print Assumptions C02_once_the_faults_stop_encrypt_succeeds_with_session_closes.
+Print Assumptions C02_once_the_faults_stop_encrypt_succeeds_with_closes.
